@@ -262,19 +262,16 @@ static RBCell *make_span(TickitRenderBuffer *rb, int line, int col, int cols)
 
 // cell creation functions
 
-static int put_string(TickitRenderBuffer *rb, int line, int col, TickitString *s)
+/* Store columns [offs, offs+cols) of the string s, starting at the given cell */
+static int put_substr(TickitRenderBuffer *rb, int line, int col, TickitString *s, int offs, int cols)
 {
-  TickitStringPos endpos;
-  size_t len = tickit_utf8_ncount(tickit_string_get(s), tickit_string_len(s), &endpos, NULL);
-  if(1 + len == 0)
-    return -1;
-
-  int cols = endpos.columns;
   int ret = cols;
 
   int startcol;
   if(!xlate_and_clip(rb, &line, &col, &cols, &startcol))
     return ret;
+
+  startcol += offs;
 
   RBCell *linecells = rb->cells[line];
 
@@ -306,6 +303,16 @@ static int put_string(TickitRenderBuffer *rb, int line, int col, TickitString *s
   }
 
   return ret;
+}
+
+static int put_string(TickitRenderBuffer *rb, int line, int col, TickitString *s)
+{
+  TickitStringPos endpos;
+  size_t len = tickit_utf8_ncount(tickit_string_get(s), tickit_string_len(s), &endpos, NULL);
+  if(1 + len == 0)
+    return -1;
+
+  return put_substr(rb, line, col, s, 0, endpos.columns);
 }
 
 static int put_text(TickitRenderBuffer *rb, int line, int col, const char *text, size_t len)
@@ -1131,17 +1138,23 @@ static void copyrect(TickitRenderBuffer *dst, const TickitRenderBuffer *src,
         offset = col - startcol;
       }
 
-      int cols = cell->cols;
+      /* When copying within the same RB, writing to dst may rewrite the very
+       * span being copied; take its state and length first. The span is
+       * measured from col, which may be inside it */
+      int state    = cell->state;
+      int spancols = cell->cols - offset;
+
+      int cols = spancols;
 
       if(col + cols > tickit_rect_right(srcrect))
         cols = tickit_rect_right(srcrect) - col;
 
-      if(cell->state != SKIP) {
+      if(state != SKIP) {
         tickit_renderbuffer_savepen(dst);
         tickit_renderbuffer_setpen(dst, cell->pen);
       }
 
-      switch(cell->state) {
+      switch(state) {
         case SKIP:
           if(copy_skip)
             skip(dst, line + lineoffs, col + coloffs,
@@ -1149,23 +1162,14 @@ static void copyrect(TickitRenderBuffer *dst, const TickitRenderBuffer *src,
           break;
         case TEXT:
           {
-            TickitStringPos start, end, limit;
-            const char *text = tickit_string_get(cell->v.text.s);
+            /* The new span shows the same columns of the same string; hold
+             * it, as the source cell might be its only owner */
+            TickitString *s = tickit_string_ref(cell->v.text.s);
 
-            tickit_stringpos_limit_columns(&limit, cell->v.text.offs + offset);
-            tickit_utf8_count(text, &start, &limit);
+            put_substr(dst, line + lineoffs, col + coloffs,
+                s, cell->v.text.offs + offset, cols);
 
-            limit.columns += cols;
-            end = start;
-            tickit_utf8_countmore(text, &end, &limit);
-
-            if(start.bytes > 0 || end.bytes < tickit_string_len(cell->v.text.s))
-              put_text(dst, line + lineoffs, col + coloffs,
-                  text + start.bytes, end.bytes - start.bytes);
-            else
-              // We can just cheaply copy the entire string
-              put_string(dst, line + lineoffs, col + coloffs,
-                  cell->v.text.s);
+            tickit_string_unref(s);
           }
           break;
         case ERASE:
@@ -1185,7 +1189,7 @@ static void copyrect(TickitRenderBuffer *dst, const TickitRenderBuffer *src,
           abort();
       }
 
-      if(cell->state != SKIP)
+      if(state != SKIP)
         tickit_renderbuffer_restore(dst);
 
       if(leftwards)
@@ -1193,7 +1197,7 @@ static void copyrect(TickitRenderBuffer *dst, const TickitRenderBuffer *src,
                   next iteration
                 */
       else
-        col += cell->cols;
+        col += spancols;
     }
   }
 }
